@@ -12,4 +12,152 @@ pub open spec fn lcs_len<Old: Index<usize> + ?Sized, New: Index<usize> + ?Sized>
     else { imax(lcs_len(old, i + 1, oe, new, j, ne), lcs_len(old, i, oe, new, j + 1, ne)) }
 }
 
+// ---------------------------------------------------------------------------------------------
+// lemmas about `lcs_len` (all proved, by induction along the recurrence; `eqv` is an arbitrary relation)
+// ---------------------------------------------------------------------------------------------
+
+/// an empty side has no common subsequence
+pub proof fn lemma_lcs_empty<Old: Index<usize> + ?Sized, New: Index<usize> + ?Sized>(old: &Old, i: int, oe: int, new: &New, j: int, ne: int)
+  where New::Output: PartialEq<Old::Output>
+  requires i >= oe || j >= ne
+  ensures lcs_len(old, i, oe, new, j, ne) == 0
+{}
+
+/// 0 <= lcs <= min(length of the old range, length of the new range)
+pub proof fn lemma_lcs_bounds<Old: Index<usize> + ?Sized, New: Index<usize> + ?Sized>(old: &Old, i: int, oe: int, new: &New, j: int, ne: int)
+  where New::Output: PartialEq<Old::Output>
+  ensures 0 <= lcs_len(old, i, oe, new, j, ne), lcs_len(old, i, oe, new, j, ne) <= imax(oe - i, 0), lcs_len(old, i, oe, new, j, ne) <= imax(ne - j, 0)
+  decreases (if oe > i { oe - i } else { 0 }) + (if ne > j { ne - j } else { 0 })
+{
+    if i >= oe || j >= ne {
+    } else {
+        lemma_lcs_bounds(old, i + 1, oe, new, j + 1, ne);
+        lemma_lcs_bounds(old, i + 1, oe, new, j, ne);
+        lemma_lcs_bounds(old, i, oe, new, j + 1, ne);
+    }
+}
+
+/// monotonicity at the front: dropping the first item of one side never increases the lcs and decreases it by at most 1
+pub proof fn lemma_lcs_front_step<Old: Index<usize> + ?Sized, New: Index<usize> + ?Sized>(old: &Old, i: int, oe: int, new: &New, j: int, ne: int)
+  where New::Output: PartialEq<Old::Output>
+  ensures
+      lcs_len(old, i + 1, oe, new, j, ne) <= lcs_len(old, i, oe, new, j, ne) <= lcs_len(old, i + 1, oe, new, j, ne) + 1,
+      lcs_len(old, i, oe, new, j + 1, ne) <= lcs_len(old, i, oe, new, j, ne) <= lcs_len(old, i, oe, new, j + 1, ne) + 1,
+  decreases (if oe > i { oe - i } else { 0 }) + (if ne > j { ne - j } else { 0 })
+{
+    if i >= oe || j >= ne {
+        lemma_lcs_empty(old, i + 1, oe, new, j, ne);
+        lemma_lcs_empty(old, i, oe, new, j + 1, ne);
+    } else {
+        // (i+1, j): its j-step relates lcs(i+1, j) and lcs(i+1, j+1);  (i, j+1): its i-step relates lcs(i, j+1) and lcs(i+1, j+1)
+        lemma_lcs_front_step(old, i + 1, oe, new, j, ne);
+        lemma_lcs_front_step(old, i, oe, new, j + 1, ne);
+    }
+}
+
+/// monotonicity at the back: one more item at the end of one side never decreases the lcs and increases it by at most 1
+pub proof fn lemma_lcs_back_step<Old: Index<usize> + ?Sized, New: Index<usize> + ?Sized>(old: &Old, i: int, oe: int, new: &New, j: int, ne: int)
+  where New::Output: PartialEq<Old::Output>
+  ensures
+      lcs_len(old, i, oe, new, j, ne) <= lcs_len(old, i, oe + 1, new, j, ne) <= lcs_len(old, i, oe, new, j, ne) + 1,
+      lcs_len(old, i, oe, new, j, ne) <= lcs_len(old, i, oe, new, j, ne + 1) <= lcs_len(old, i, oe, new, j, ne) + 1,
+  decreases (if oe > i { oe - i } else { 0 }) + (if ne > j { ne - j } else { 0 })
+{
+    lemma_lcs_bounds(old, i, oe + 1, new, j, ne);
+    lemma_lcs_bounds(old, i, oe, new, j, ne + 1);
+    if i >= oe || j >= ne {
+        // the shorter box has lcs 0, the longer one has a side of length at most 1
+    } else {
+        lemma_lcs_back_step(old, i + 1, oe, new, j + 1, ne);
+        lemma_lcs_back_step(old, i + 1, oe, new, j, ne);
+        lemma_lcs_back_step(old, i, oe, new, j + 1, ne);
+    }
+}
+
+/// one related pair appended at the end of both ranges lengthens the lcs by exactly 1
+pub proof fn lemma_lcs_snoc_match<Old: Index<usize> + ?Sized, New: Index<usize> + ?Sized>(old: &Old, i: int, oe: int, new: &New, j: int, ne: int)
+  where New::Output: PartialEq<Old::Output>
+  requires i <= oe, j <= ne, eqv(old, oe, new, ne)
+  ensures lcs_len(old, i, oe + 1, new, j, ne + 1) == lcs_len(old, i, oe, new, j, ne) + 1
+  decreases (oe - i) + (ne - j)
+{
+    if i == oe && j == ne {
+        lemma_lcs_empty(old, oe + 1, oe + 1, new, ne + 1, ne + 1);
+    } else if i == oe {
+        lemma_lcs_empty(old, oe, oe, new, j, ne);
+        if eqv(old, oe, new, j) {
+            lemma_lcs_empty(old, oe + 1, oe + 1, new, j + 1, ne + 1);
+        } else {
+            lemma_lcs_snoc_match(old, i, oe, new, j + 1, ne);
+            lemma_lcs_empty(old, oe + 1, oe + 1, new, j, ne + 1);
+            lemma_lcs_empty(old, oe, oe, new, j + 1, ne);
+        }
+    } else if j == ne {
+        lemma_lcs_empty(old, i, oe, new, ne, ne);
+        if eqv(old, i, new, ne) {
+            lemma_lcs_empty(old, i + 1, oe + 1, new, ne + 1, ne + 1);
+        } else {
+            lemma_lcs_snoc_match(old, i + 1, oe, new, j, ne);
+            lemma_lcs_empty(old, i, oe + 1, new, ne + 1, ne + 1);
+            lemma_lcs_empty(old, i + 1, oe, new, ne, ne);
+        }
+    } else {
+        if eqv(old, i, new, j) {
+            lemma_lcs_snoc_match(old, i + 1, oe, new, j + 1, ne);
+        } else {
+            lemma_lcs_snoc_match(old, i + 1, oe, new, j, ne);
+            lemma_lcs_snoc_match(old, i, oe, new, j + 1, ne);
+        }
+    }
+}
+
+/// PREFIX stripping: if the first p pairs are related then lcs(box) == p + lcs(box minus that prefix)
+pub proof fn lemma_lcs_prefix<Old: Index<usize> + ?Sized, New: Index<usize> + ?Sized>(old: &Old, i: int, oe: int, new: &New, j: int, ne: int, p: int)
+  where New::Output: PartialEq<Old::Output>
+  requires 0 <= p, i + p <= oe, j + p <= ne,
+      forall|t: int| 0 <= t < p ==> #[trigger] relk(rel_of(old, new), i, j, t),
+  ensures lcs_len(old, i, oe, new, j, ne) == p + lcs_len(old, i + p, oe, new, j + p, ne)
+  decreases p
+{
+    if p > 0 {
+        assert(relk(rel_of(old, new), i, j, 0));
+        assert(eqv(old, i, new, j));
+        assert forall|t: int| 0 <= t < p - 1 implies #[trigger] relk(rel_of(old, new), i + 1, j + 1, t) by {
+            assert(relk(rel_of(old, new), i, j, t + 1));
+        }
+        lemma_lcs_prefix(old, i + 1, oe, new, j + 1, ne, p - 1);
+    }
+}
+
+/// SUFFIX stripping: if the last s pairs are related then lcs(box) == lcs(box minus that suffix) + s
+pub proof fn lemma_lcs_suffix<Old: Index<usize> + ?Sized, New: Index<usize> + ?Sized>(old: &Old, i: int, oe: int, new: &New, j: int, ne: int, s: int)
+  where New::Output: PartialEq<Old::Output>
+  requires 0 <= s, i <= oe - s, j <= ne - s,
+      forall|t: int| 0 <= t < s ==> #[trigger] relk(rel_of(old, new), oe - s, ne - s, t),
+  ensures lcs_len(old, i, oe, new, j, ne) == lcs_len(old, i, oe - s, new, j, ne - s) + s
+  decreases s
+{
+    if s > 0 {
+        assert(relk(rel_of(old, new), oe - s, ne - s, s - 1));
+        assert(eqv(old, oe - 1, new, ne - 1));
+        lemma_lcs_snoc_match(old, i, oe - 1, new, j, ne - 1);
+        assert forall|t: int| 0 <= t < s - 1 implies #[trigger] relk(rel_of(old, new), (oe - 1) - (s - 1), (ne - 1) - (s - 1), t) by {
+            assert(relk(rel_of(old, new), oe - s, ne - s, t));
+        }
+        lemma_lcs_suffix(old, i, oe - 1, new, j, ne - 1, s - 1);
+    }
+}
+
+/// what the algorithms do first: strip a common prefix of length p and then a common suffix of length s
+pub proof fn lemma_lcs_strip<Old: Index<usize> + ?Sized, New: Index<usize> + ?Sized>(old: &Old, i: int, oe: int, new: &New, j: int, ne: int, p: int, s: int)
+  where New::Output: PartialEq<Old::Output>
+  requires 0 <= p, 0 <= s, i + p + s <= oe, j + p + s <= ne,
+      forall|t: int| 0 <= t < p ==> #[trigger] relk(rel_of(old, new), i, j, t),
+      forall|t: int| 0 <= t < s ==> #[trigger] relk(rel_of(old, new), oe - s, ne - s, t),
+  ensures lcs_len(old, i, oe, new, j, ne) == p + lcs_len(old, i + p, oe - s, new, j + p, ne - s) + s
+{
+    lemma_lcs_prefix(old, i, oe, new, j, ne, p);
+    lemma_lcs_suffix(old, i + p, oe, new, j + p, ne, s);
+}
+
 } // verus!
